@@ -46,7 +46,7 @@ CODE_NAMES = ["SNS", "SNSIAS", "LEN", "NONE", "POS", "NEG"]
 NRC_SNS, NRC_SNSIAS, NRC_LEN = 0x11, 0x7F, 0x13
 # "something else": negative response codes that are neither not-supported nor length errors
 # (no busyRepeatRequest / responsePending: those are resolved by the UDS client, property C04)
-OTHER_NRCS = [0x12, 0x31, 0x33, 0x22, 0x10, 0x7E, 0x24, 0x72]
+OTHER_NRCS = [0x12, 0x31, 0x33, 0x22, 0x10, 0x7E, 0x24, 0x72, 0x21]  # incl. busyRepeatRequest: still an answer
 
 
 def classify(resp: bytes | None) -> int:
@@ -274,7 +274,8 @@ class IdentServer(_RecMixin, UDSServer):
                 other = (ident + 2) % 0x80
             return ident_positive(svc, sf, other), False
         if ident in self.abn.get(key, ()):
-            return bytes([0x7F, svc, 0x33 if ident % 2 else 0x22]), False
+            # securityAccessDenied / conditionsNotCorrect / busyRepeatRequest (every attempt): all are answers
+            return bytes([0x7F, svc, (0x33, 0x22, 0x21)[ident % 3]]), False
         if ident in self.sil.get(key, ()):
             return None, False
         return bytes([0x7F, svc, 0x12 if svc == 0x27 else 0x31]), False
